@@ -63,9 +63,15 @@ def script_case(args):
             lines.append(f"(assert (or {nm} a))")
             expect.append((len(lines) - 1, "success" if scopes and nm in cur() and any(s.get(nm) == "fun" for s in scopes) else "error"))
         elif c < 0.7:
-            lines.append("(push 1)"); scopes.append(dict()); expect.append((len(lines) - 1, "success"))
+            k = 1 if rng.random() < 0.75 else rng.randint(2, 3)           # several levels at once
+            lines.append(f"(push {k})"); expect.append((len(lines) - 1, "success"))
+            for _ in range(k):
+                scopes.append(dict())
         elif c < 0.85 and len(scopes) > 1:
-            lines.append("(pop 1)"); scopes.pop(); expect.append((len(lines) - 1, "success"))
+            k = 1 if rng.random() < 0.6 else rng.randint(1, len(scopes) - 1)
+            lines.append(f"(pop {k})"); expect.append((len(lines) - 1, "success"))
+            for _ in range(k):
+                scopes.pop()
         else:
             lines.append("(check-sat)")
             expect.append((len(lines) - 1, ("core", set(k for k in cur() if any(s.get(k) == "name" for s in scopes)))))
